@@ -1,4 +1,5 @@
 // gen_c17 regenerates lean/GocoinV/Gen/WalletCfgFacts.lean from /repo/client/common and /repo/client/wallet
+// and lean/GocoinV/Gen/UtxoNotifyFacts.lean from /repo/lib/utxo (guards.go)
 // (translator tie for C17): WHERE the minimum output value and the list->map threshold of the balance index are
 // read and where the values IN FORCE (common.allBalMinVal, wallet.useMapCnt) are written.
 //
@@ -13,7 +14,12 @@
 //     while the index is being built) cannot reach a store of that variable;
 //   - everything wallet.TxNotifyAdd / TxNotifyDel (the callbacks of UnspentDB) compare an output's Value with is
 //     common.AllBalMinVal(), and nothing in client/wallet reads CFG.AllBalances.MinValue directly;
-//   - the wallet's copy of CFG.AllBalances.UseMapCnt is assigned only in InitMaps and LoadBalances.
+//   - the wallet's copy of CFG.AllBalances.UseMapCnt is assigned only in InitMaps and LoadBalances;
+//   - (guards.go, Gen/UtxoNotifyFacts.lean) in lib/utxo the conditions guarding the calls of the index callbacks
+//     CB.NotifyTxAdd / CB.NotifyTxDel depend only on the callback being installed, the block's AddList / DeledTxs and
+//     the stored record being the one named — not on the block's height, the best known header (LastKnownHeight),
+//     UnwindBufLen or UndoData: Model/BalancesBlock.lean's connectBlock runs them in every sync state
+//     (Proofs/C17Block.lean notify_facts, Props/C17.lean callbacks_guarded_by_installation_only).
 //
 // Proofs/C17Cfg.lean restates them (`source_facts`), Props/C17.lean's load_ignores_config_changes depends on them.
 //
@@ -1003,5 +1009,13 @@ func main() {
 	if err := os.WriteFile(out, []byte(sb.String()), 0644); err != nil {
 		die(err)
 	}
+	// ---- 8. lib/utxo: what the guards of the calls of the index callbacks depend on (guards.go)
+	nf, text := writeNotifyFacts(loadPkg("lib/utxo"))
+	out2 := vlib.Root() + "/lean/GocoinV/Gen/UtxoNotifyFacts.lean"
+	os.Remove(out2)
+	if err := os.WriteFile(out2, []byte(text), 0644); err != nil {
+		die(err)
+	}
+	facts += nf
 	fmt.Printf("FACTS %d\n", facts)
 }
